@@ -264,7 +264,7 @@ class C16(Check):
         shape = {'p_switch': rng.choice([0.1, 0.3, 0.6]), 'line_gaps': rng.choice([0, 0, 8, 13]),
                  'seg_bias': rng.choice([1.0, 0.6, 0.2]), 'lat_bias': rng.choice([1.0, 0.8, 0.5]),
                  'mode': mode, 'ncallers': ncallers, 'timeout': timeout, 'replies': replies,
-                 'wait_before': rng.choice([0, 0, 0.05]), 'reconnect_interval': rng.choice([3.0, 10.0]),
+                 'wait_before': rng.choice([0, 0, 0.05, 0.3]), 'reconnect_interval': rng.choice([3.0, 10.0]),
                  'user_poll': rng.choice([0.5, 2.0]), 'faulty': faulty, 'refuse_first': rng.random() < 0.1,
                  # a two-byte end of line can be cut in two by the segmentation of the network
                  'eol': rng.choice(['\n', '\n', '\r\n']),
@@ -398,6 +398,7 @@ class C16(Check):
         # the client side endpoints of all connections (send times of commands)
         ctx['client_sent'] = [[(t, d) for (t, _q, d) in a.sent_log] for a, b in world.net.pairs]
         ctx['client_arrivals'] = [[(t, d) for (t, _q, d) in a.recv_log] for a, b in world.net.pairs]
+        ctx['client_delivered'] = [[(t, d) for (t, _q, d) in a.deliver_log] for a, b in world.net.pairs]
         ctx['client_sent_seq'] = [[(q, d) for (_t, q, d) in a.sent_log] for a, b in world.net.pairs]
         ctx['client_read_seq'] = [[(q, d) for (_t, q, d) in a.recv_log] for a, b in world.net.pairs]
         ctx['connect_log'] = list(world.net.connect_log)
@@ -508,6 +509,32 @@ class C16(Check):
                     if u is not None:
                         sent_seq.setdefault(u, (conn_idx, q))
 
+        dstreams = []
+        for lst in ctx['client_delivered']:
+            dstreams.append((b''.join(d for _t, d in lst), [t for t, d in lst for _ in d]))
+
+        def arrived_before_send(u, rep):
+            """(arrival time, send time) when every place of the stream <rep> may come from had arrived at the socket
+            more than 1 ms before <u> was sent (flush and send follow each other without any delay)"""
+            if u not in sent_seq or u not in sent_at:
+                return None
+            conn_idx, _q = sent_seq[u]
+            try:
+                raw = rep.encode('latin-1') + (shape.get('eol') or '\n').encode() if mode == 'string' else bytes(rep)
+            except Exception:   # noqa
+                return None
+            if len(raw) < 3:
+                return None
+            data, times = dstreams[conn_idx]
+            firsts = []
+            pos = data.find(raw)
+            while pos >= 0:
+                firsts.append(times[pos + len(raw) - 1])
+                pos = data.find(raw, pos + 1)
+            if not firsts:
+                return None
+            return all(f < sent_at[u] - 0.001 for f in firsts) and (min(firsts), sent_at[u])
+
         def read_before_send(u, rep):
             """True when every place of the byte stream that <rep> may come from was read before <u> was sent"""
             if u not in sent_seq:
@@ -550,6 +577,12 @@ class C16(Check):
                         continue
                     if not isinstance(tok, tuple) and tok not in rx_by_uid:
                         tok = ('garbled', rep)      # looks like a reply, but to a command nobody sent: misaligned bytes
+                    early = arrived_before_send(u, rep)
+                    if early:
+                        res.append(Violation('C16.stale-returned', 'arrived-before-send',
+                                             f'{c["task"]} command uid {u} (sent at t={early[1]:.4f}) got {rep!r}, which had '
+                                             f'completely arrived at the socket at t={early[0]:.4f}, before the command was sent'))
+                        continue
                     stale = read_before_send(u, rep)
                     if stale:
                         res.append(Violation('C16.stale-returned', 'bytes-read-before-send',
